@@ -93,3 +93,21 @@ package signjar
 //@   loop 1 sig "for" invariant compared == 0 && len(digesters) > 0
 //@   loop 2 sig "for _, digester := range digesters" invariant compared == 0 && len(digesters) > 0
 //@   loop 3 sig "for _, digester := range digesters" invariant compared == rangeindex + 1 && len(digesters) > 0
+//@
+//@ func splitManifest
+//@   property C11
+//@   nopanic
+//@   ensures @at_most_one_section_per_input_byte len(ret0) <= len(manifest)
+//@   loop 0 sig "for len(manifest) != 0" invariant len(sections) + len(manifest) <= old(len(manifest))
+//@
+//@ func parseSection
+//@   property C11
+//@   nopanic
+//@
+//@ func parseManifest
+//@   property C11
+//@   nopanic
+//@
+//@ func ParseManifest
+//@   property C11
+//@   nopanic
